@@ -11,7 +11,7 @@ import (
 // or a local array — where L is a constant, an element of a local table of constants (whatever the index), or
 // anything the interval engine can bound (a value that went through a narrow integer type is that type's whole range:
 // uint8 arithmetic wraps).
-func bufLenBounds(v ssa.Value) (lo, hi int64, ok bool, how string) {
+func bufLenBounds(p *Prog, v ssa.Value) (lo, hi int64, ok bool, how string) {
 	v = stripConv(v)
 	if ld, isLd := v.(*ssa.UnOp); isLd && ld.Op == token.MUL {
 		if a, isA := ld.X.(*ssa.Alloc); isA {
@@ -27,17 +27,17 @@ func bufLenBounds(v ssa.Value) (lo, hi int64, ok bool, how string) {
 	if !isMk {
 		return 0, 0, false, "not a locally made buffer: " + Expr(v)
 	}
-	return intBounds(mk.Len)
+	return intBounds(p, mk.Len)
 }
 
-func intBounds(l ssa.Value) (lo, hi int64, ok bool, how string) {
+func intBounds(p *Prog, l ssa.Value) (lo, hi int64, ok bool, how string) {
 	if k, isK := intConst(l); isK {
 		return k, k, true, "constant"
 	}
 	// element of a local table of constants
 	if ld, isLd := stripIntWiden(l).(*ssa.UnOp); isLd && ld.Op == token.MUL {
 		if ia, isIA := ld.X.(*ssa.IndexAddr); isIA {
-			if els, okE := tableConsts(ia.X); okE && len(els) > 0 {
+			if els, okE := tableConsts(p, ia.X); okE && len(els) > 0 {
 				lo, hi = els[0], els[0]
 				for _, e := range els {
 					if e < lo {
@@ -60,11 +60,59 @@ func intBounds(l ssa.Value) (lo, hi int64, ok bool, how string) {
 	return l0, h0, false, "no constant bounds for " + Expr(l)
 }
 
+func globalTableConsts(p *Prog, g *ssa.Global) ([]int64, bool) {
+
+	if p == nil || g.Pkg == nil {
+		return nil, false
+	}
+	var init ssa.Value
+	ok := true
+	for _, f := range p.RepoFuncs {
+		allInstrs(f, func(i ssa.Instruction) {
+			switch x := i.(type) {
+			case *ssa.Store:
+				if x.Addr == ssa.Value(g) {
+					if f.Name() != "init" || f.Pkg != g.Pkg || init != nil {
+						ok = false
+					}
+					init = x.Val
+				}
+			case *ssa.IndexAddr:
+				// an element written through the global
+				if ld, isLd := x.X.(*ssa.UnOp); isLd && ld.X == ssa.Value(g) && x.Referrers() != nil {
+					for _, r := range *x.Referrers() {
+						if _, isSt := r.(*ssa.Store); isSt {
+							ok = false
+						}
+					}
+				}
+			case *ssa.Call:
+				// handed to something that could write it (append(g, …) creates a new slice; copy(dst=g, …) writes)
+				if calleeName(&x.Call) == "builtin.copy" && len(x.Call.Args) == 2 {
+					if ld, isLd := x.Call.Args[0].(*ssa.UnOp); isLd && ld.X == ssa.Value(g) {
+						ok = false
+					}
+				}
+			}
+		})
+	}
+	if !ok || init == nil {
+		return nil, false
+	}
+	return tableConsts(p, init)
+}
+
 // tableConsts: the elements of a slice or array literal all of whose entries are integer constants and that is written
 // nowhere else.
-func tableConsts(t ssa.Value) ([]int64, bool) {
+func tableConsts(p *Prog, t ssa.Value) ([]int64, bool) {
 	if sl, ok := t.(*ssa.Slice); ok && sl.Low == nil && sl.High == nil {
 		t = sl.X
+	}
+	// a package-level table: declared with a literal (stored once, by the package initialiser) and never written to
+	if ld, isLd := t.(*ssa.UnOp); isLd && ld.Op == token.MUL {
+		if g, isG := ld.X.(*ssa.Global); isG {
+			return globalTableConsts(p, g)
+		}
 	}
 	a, ok := t.(*ssa.Alloc)
 	if !ok || a.Referrers() == nil {
